@@ -214,4 +214,182 @@ theorem extent_len_fits (f : FileRef) (joliet : Bool) (base : Nat) :
     show f.size < 2 ^ 32
     omega
 
+/-! ### the scan covers exactly the tree -/
+
+def isFileAt (w : World) (path : Path) (n : Name) : Bool :=
+  match w.stat (path ++ [n]) with
+  | some (_, .file _) => true
+  | _ => false
+
+def isDirAt (w : World) (path : Path) (n : Name) : Bool :=
+  match w.stat (path ++ [n]) with
+  | some (_, .dir _) => true
+  | _ => false
+
+/-- one directory is scanned completely: every name becomes either a file record of this directory
+    or a pushed sub-directory, in enumeration order, nothing is dropped and nothing invented -/
+theorem scanEntries_partition (w : World) (path : Path) (names : List Name) :
+    ∀ (files : List FileRef) (stack : List Path) (s : Nat) (files' : List FileRef) (stack' : List Path) (s' : Nat),
+    scanEntries w path names files stack s = some (files', stack', s') →
+      files'.map (·.name) = files.map (·.name) ++ names.filter (isFileAt w path) ∧
+      stack' = stack ++ (names.filter (isDirAt w path)).map (fun n => path ++ [n]) ∧
+      ∀ n ∈ names, isFileAt w path n = true ∨ isDirAt w path n = true := by
+  induction names with
+  | nil =>
+    intro files stack s files' stack' s' h
+    simp [scanEntries] at h
+    obtain ⟨rfl, rfl, _⟩ := h
+    simp
+  | cons n rest ih =>
+    intro files stack s files' stack' s' h
+    unfold scanEntries at h
+    split at h
+    · cases h
+    · rename_i q mt hst
+      obtain ⟨a, b, c⟩ := ih _ _ _ _ _ _ h
+      have hd : isDirAt w path n = true := by simp [isDirAt, hst]
+      have hf : isFileAt w path n = false := by simp [isFileAt, hst]
+      refine ⟨?_, ?_, ?_⟩
+      · simp [hf, a]
+      · simp [hd, b]
+      · intro x hx; rcases List.mem_cons.mp hx with rfl | hx
+        · exact Or.inr hd
+        · exact c x hx
+    · rename_i q i hst
+      split at h
+      · cases h
+      · obtain ⟨a, b, c⟩ := ih _ _ _ _ _ _ h
+        have hd : isDirAt w path n = false := by simp [isDirAt, hst]
+        have hf : isFileAt w path n = true := by simp [isFileAt, hst]
+        refine ⟨?_, ?_, ?_⟩
+        · simp [hf, a]
+        · simp [hd, b]
+        · intro x hx; rcases List.mem_cons.mp hx with rfl | hx
+          · exact Or.inl hf
+          · exact c x hx
+    · cases h
+
+theorem split_last {α : Type} (l : List α) (a : α) (h : l.getLast? = some a) : l = l.dropLast ++ [a] := by
+  have hne : l ≠ [] := by intro e; simp [e] at h
+  have h1 := List.dropLast_concat_getLast hne
+  have h2 : l.getLast hne = a := by
+    have := List.getLast?_eq_some_getLast hne
+    rw [this] at h; exact Option.some.inj h
+  rw [h2] at h1; exact h1.symm
+
+/-- directory `it` of the image was scanned completely and all its sub-directories are in the image too -/
+def ItemOk (w : World) (items : List DirItem) (it : DirItem) : Prop :=
+  ∃ q mt, w.stat it.path = some (q, .dir mt) ∧ it.mtime = mt ∧
+    it.files.map (·.name) = (dirNames w q).filter (isFileAt w it.path) ∧
+    (∀ n ∈ dirNames w q, isFileAt w it.path n = true ∨ isDirAt w it.path n = true) ∧
+    ∀ n ∈ (dirNames w q).filter (isDirAt w it.path), (it.path ++ [n]) ∈ items.map (·.path)
+
+theorem scan_visits (w : World) (fuel : Nat) :
+    ∀ (stack : List Path) (acc : List DirItem) (s : Nat) (items : List DirItem) (e : Nat),
+    scan w fuel stack acc s = some (items, e) →
+      (∃ tail, items = acc ++ tail) ∧ (∀ p ∈ stack, p ∈ items.map (·.path)) ∧
+      (∀ it ∈ items, it ∈ acc ∨ ItemOk w items it) := by
+  induction fuel with
+  | zero =>
+    intro stack acc s items e h
+    unfold scan at h
+    split at h
+    · cases h; exact ⟨⟨[], by simp⟩, by simp, fun it hit => Or.inl hit⟩
+    · cases h
+    · omega
+  | succ fuel ih =>
+    intro stack acc s items e h
+    unfold scan at h
+    split at h
+    · cases h; exact ⟨⟨[], by simp⟩, by simp, fun it hit => Or.inl hit⟩
+    · omega
+    · rename_i stack acc s _ _ _ _ fuel' hfu _
+      have hf : fuel' = fuel := by omega
+      subst hf
+      split at h
+      · rename_i hlast
+        cases h
+        have : stack = [] := by simpa using hlast
+        subst this
+        exact ⟨⟨[], by simp⟩, by simp, fun it hit => Or.inl hit⟩
+      · rename_i path hlast
+        split at h
+        · rename_i q mt hst
+          split at h
+          · cases h
+          · rename_i files stack' s' hse
+            obtain ⟨hpre, hstk, hall⟩ := ih _ _ _ _ _ h
+            obtain ⟨hnames, hstack', hkinds⟩ := scanEntries_partition w path (dirNames w q) [] _ _ _ _ _ hse
+            obtain ⟨tail, htail⟩ := hpre
+            have hitem_in : (⟨path, path.getLast?.getD [], mt, files⟩ : DirItem) ∈ items := by
+              rw [htail]; simp
+            have hsplit : stack = stack.dropLast ++ [path] := split_last stack path hlast
+            refine ⟨⟨[⟨path, path.getLast?.getD [], mt, files⟩] ++ tail, by rw [htail]; simp⟩, ?_, ?_⟩
+            · intro p hp
+              rw [hsplit] at hp
+              rcases List.mem_append.mp hp with hp | hp
+              · exact hstk p (by rw [hstack']; exact List.mem_append_left _ hp)
+              · simp only [List.mem_singleton] at hp
+                subst hp
+                exact List.mem_map.mpr ⟨_, hitem_in, rfl⟩
+            · intro it hit
+              rcases hall it hit with hacc | hok
+              · rcases List.mem_append.mp hacc with ha | ha
+                · exact Or.inl ha
+                · simp only [List.mem_singleton] at ha
+                  subst ha
+                  refine Or.inr ⟨q, mt, hst, rfl, by simpa using hnames, hkinds, ?_⟩
+                  intro n hn
+                  apply hstk
+                  rw [hstack']
+                  exact List.mem_append_right _ (List.mem_map.mpr ⟨n, hn, rfl⟩)
+              · exact Or.inr hok
+        · cases h
+
+/-- directories reachable from the image root through directory entries (symlinks to directories
+    included, as `stat` follows them) -/
+inductive Reach (w : World) (root : Path) : Path → Prop
+  | root : Reach w root root
+  | child (p q : Path) (mt : Nat) (n : Name) : Reach w root p → w.stat p = some (q, .dir mt) →
+      n ∈ dirNames w q → isDirAt w p n = true → Reach w root (p ++ [n])
+
+/-- **The scan is complete**: every directory reachable from the root is a directory of the image,
+    and every directory of the image lists exactly its file entries (in enumeration order) and has
+    all its sub-directories in the image — nothing under the root is left out and nothing is invented. -/
+theorem scan_complete (w : World) (root : Path) (items : List DirItem) (e : Nat)
+    (h : scan w scanFuel [root] [] 0 = some (items, e)) :
+    (∀ p, Reach w root p → p ∈ items.map (·.path)) ∧ ∀ it ∈ items, ItemOk w items it := by
+  obtain ⟨_, hstk, hall⟩ := scan_visits w scanFuel [root] [] 0 items e h
+  have hok : ∀ it ∈ items, ItemOk w items it := by
+    intro it hit
+    rcases hall it hit with h0 | h1
+    · cases h0
+    · exact h1
+  refine ⟨?_, hok⟩
+  intro p hp
+  induction hp with
+  | root => exact hstk root (by simp)
+  | child p q mt n _ hst hn hd ih =>
+    obtain ⟨it, hit, hpath⟩ := List.mem_map.mp ih
+    obtain ⟨q', mt', hst', _, _, _, hsub⟩ := hok it hit
+    rw [hpath, hst] at hst'
+    cases hst'
+    have := hsub n (by rw [List.mem_filter]; exact ⟨hn, by rw [hpath]; exact hd⟩)
+    rw [hpath] at this
+    exact this
+
+/-- … for the layout every generated image is built from -/
+theorem layout_tree_complete (w : World) (root : Path) (ps3 : Bool) (L : Layout) (h : layoutOf w root ps3 = some L) :
+    (∀ p, Reach w root p → p ∈ L.items.map (·.path)) ∧ ∀ it ∈ L.items, ItemOk w L.items it := by
+  unfold layoutOf at h
+  split at h
+  · split at h
+    · cases h
+    · split at h
+      · cases h
+      · rename_i items fsec hscan
+        cases h
+        exact scan_complete w root items fsec hscan
+  · cases h
+
 end Ps3.Props.C07
